@@ -17,15 +17,16 @@ def World.WF (w : World) : Prop := (w.ings.map Ingress.key).Nodup
 
 /-- `b` describes the change of the cluster from `w` (state at the previous sync) to `w'` for a PARTIAL sync:
 every changed object and every ingress whose valid content changed is in `links`; a touched ingress that is
-valid in `w'` is carried (with its final content) by `add` or `upd`; IngressClasses and the global ConfigMap
-did not change (those are full syncs). Pods are outside the proved fragment (`drain-support` off). -/
+valid in `w'` is carried (with its final content) by `add` or `upd`. A change of an IngressClass that flips the
+validity of an ingress is a change of `validIng` (such batches are full syncs in the real code); what the
+converter reads from an IngressClass (Parameters) is outside the model. Pods are outside the proved fragment
+(`drain-support` off). -/
 structure Describes (w w' : World) (b : Batch) : Prop where
   obj : ∀ n : Node, w.read n ≠ w'.read n → n ∈ b.links
   ing : ∀ k, w.validIng k ≠ w'.validIng k → (⟨.ing, k⟩ : Node) ∈ b.links
   carried : ∀ k i, (⟨.ing, k⟩ : Node) ∈ b.links → w'.validIng k = some i → i ∈ b.add ∨ i ∈ b.upd
   events : ∀ i, i ∈ b.add ∨ i ∈ b.upd → (⟨.ing, i.key⟩ : Node) ∈ b.links
   del : ∀ k ∈ b.del, (⟨.ing, k⟩ : Node) ∈ b.links
-  cls : w'.clss = w.clss
   drain : w.drain = false ∧ w'.drain = false
 
 /-! ### lists of valid ingresses -/
